@@ -480,6 +480,10 @@ _ORDER = {"tool": "tlapm", "file": "OrderProof.tla",
           "theorem": "Ordered: for ANY group length, ANY number of workers and EVERY interleaving of task pick-up, completion and "
                      "reduction, the results are added in index order, each exactly once, and nothing is added before its task has "
                      "finished (abstraction of the group phase of Training.tla, inductive invariant proved with TLAPS)"}
+PROPS["C18"]["extra_tools"] = [{"tool": "tlapm", "file": "SchrageProof.tla", "same_def": [["Random.tla", "NextState"]],
+    "theorem": "Schrage: NextState of Random.tla equals 48271 * x mod (2^31 - 1) for EVERY state, with all intermediates below 2^31 "
+               "(the operator TLC evaluates in 32-bit integers is the minstd recurrence; TLAPS, SMT back end)"}]
+PROPS["C18"]["technique"] += " + TLAPS proof that the specification's overflow-free successor is the minstd recurrence for every state (SchrageProof.tla)"
 PROPS["C04"]["extra_tools"] = [_ORDER]
 PROPS["C05"]["extra_tools"] = [_ORDER]
 PROPS["C04"]["technique"] += " + TLAPS proof that the reduction of a group is the ordered sum for unbounded group length and workers (OrderProof.tla)"
